@@ -4,4 +4,4 @@
 Require Import Laze.model.Driver.
 Require Import ExtrOcamlBasic ExtrOcamlString.
 Extraction Language OCaml.
-Extraction "model.ml" handle handle2 handle3 handle4 handle5.
+Extraction "model.ml" handle handle2 handle3 handle4 handle5 handle6.
